@@ -2,7 +2,7 @@
    reports is_finished only if a RESET_STREAM was acknowledged or the receiver has reported every written byte
    and the end marker. *)
 From Coq Require Import ZArith List Bool Lia ZifyBool Permutation.
-From AQ Require Import lib.Base model.RangeSet model.StreamRecv model.StreamSpec model.StreamSend model.NetSys
+From AQ Require Import lib.Base model.RangeSet model.StreamRecv model.StreamSpec model.StreamSend model.NetSys model.NetSysLive
   proofs.RangeSetP proofs.ListZ proofs.StreamRecvP proofs.StreamSendP proofs.NetSysP proofs.NetSysP2 proofs.NetSysP3
   proofs.NetSysP4 proofs.NetSysP6.
 
@@ -130,7 +130,6 @@ Proof.
   rewrite nth_error_app2 by lia. rewrite Nat.sub_diag. reflexivity.
 Qed.
 
-Definition reset_round (s : net) : list nop := [NEmitReset; NDeliverReset (Zlen (n_resets s)); NResetOutcome true].
 
 Lemma reset_completes s : xreach s -> s_reset (n_send s) <> None ->
   exists s', run_sched s (reset_round s) = Some s' /\
